@@ -73,6 +73,34 @@ __CPROVER_requires(VR_PRE(info, result))
 __CPROVER_ensures(VR_POST(vr_exp_AggregationChainInputHashAlgorithmVerification(info), result))
 __CPROVER_assigns(result != NULL: *result);
 
+/* ASSUMED (hashing of the RFC3161 record: TST-info and signed-attribute prefixes/suffixes around the input hash, not
+ * modelled - hasher is external): the record's output hash is a new hash identity VR_H_NEW1 owned by the caller, or an error */
+_Bool g_vr_rfcout_known;
+static int rfc3161_getOutputHash(const KSI_Signature *sig, KSI_DataHash **outputHash)
+__CPROVER_requires(sig == &g_vr_sig && outputHash != NULL && g_vr_h_ref[VR_H_NEW1] == 0)
+__CPROVER_ensures(IFF(__CPROVER_return_value == KSI_OK, g_vr_rfcout_known && sig->rfc3161 != NULL))
+__CPROVER_ensures(IMPLIES(__CPROVER_return_value == KSI_OK, *outputHash == &g_vr_h[VR_H_NEW1] && g_vr_h_ref[VR_H_NEW1] == 1))
+__CPROVER_ensures(IMPLIES(__CPROVER_return_value != KSI_OK, *outputHash == __CPROVER_old(*outputHash) && g_vr_h_ref[VR_H_NEW1] == 0))
+__CPROVER_assigns(*outputHash, g_vr_h_ref[VR_H_NEW1]);
+
+/* INT-01 (RFC3161 part); the computed hash is released on every path */
+int KSI_VerificationRule_AggregationChainInputHashVerification(KSI_VerificationContext *info, KSI_RuleVerificationResult *result)
+__CPROVER_requires(VR_PRE(info, result) && g_vr_h_ref[VR_H_NEW1] == 0)
+__CPROVER_ensures(VR_POST(vr_exp_AggregationChainInputHashVerification(info, g_vr_rfcout_known, &g_vr_h[VR_H_NEW1]), result))
+__CPROVER_ensures(g_vr_h_ref[VR_H_NEW1] == 0)
+__CPROVER_assigns(result != NULL: *result; g_vr_h_ref[VR_H_NEW1]);
+
+/* INT-11, padding format: accepted (KSI_OK) iff the element is a well-formed metadata padding; otherwise KSI_INVALID_FORMAT
+ * (the rule turns exactly that status into FAIL INT-11).  The element is a TLV of hdr_len (2 for TLV8, 4 for TLV16) +
+ * dat_len octets at el->ptr, as the TLV reader produces it (KSI_TlvElement, fast_tlv.h). */
+static int metaDataPadding_verify(KSI_CTX *ctx, KSI_TlvElement *el)
+__CPROVER_requires(ctx != NULL && __CPROVER_is_fresh(el, sizeof(*el)))
+__CPROVER_requires((el->ftlv.hdr_len == 2 || el->ftlv.hdr_len == 4) && el->ftlv.dat_len <= 0xffff && __CPROVER_is_fresh(el->ptr, el->ftlv.hdr_len + el->ftlv.dat_len))
+__CPROVER_ensures(IFF(__CPROVER_return_value == KSI_OK, spec_metadata_padding_ok(el->ftlv.tag, el->ftlv.is_nc, el->ftlv.is_fwd, el->ptr[0], el->ftlv.dat_len,
+		el->ftlv.dat_len >= 1 ? el->ptr[el->ftlv.hdr_len] : 0u, el->ftlv.dat_len >= 2 ? el->ptr[el->ftlv.hdr_len + 1] : 0u)))
+__CPROVER_ensures(__CPROVER_return_value == KSI_OK || __CPROVER_return_value == KSI_INVALID_FORMAT)
+__CPROVER_assigns();
+
 /* INT-17, INT-14 */
 int KSI_VerificationRule_Rfc3161RecordOutputHashAlgorithmVerification(KSI_VerificationContext *info, KSI_RuleVerificationResult *result)
 __CPROVER_requires(VR_PRE(info, result))
